@@ -277,6 +277,13 @@ package engine
 //@   pure
 //@   requires 0 <= i && i < len(rows) && 0 <= j && j < len(rows) && sortIdxsOK(sortIdxs, rows) && len(sortIdxs) <= len(ssl)
 //@   requires sortTyped(sortIdxs, rows)
+//@   ensures[int.order; C05] forall k int :: 0 <= k && k < len(sortIdxs) && skey(rows, sortIdxs, i, k) != skey(rows, sortIdxs, j, k) &&
+//@              typeof(skey(rows, sortIdxs, i, k)) == typ(int64) && (forall s int :: 0 <= s && s < k ==> skey(rows, sortIdxs, i, s) == skey(rows, sortIdxs, j, s)) ==>
+//@              result == ((ssl[k].OrderingSpecification.Type == sql.DESC) ? !(skey(rows, sortIdxs, i, k).(int64) < skey(rows, sortIdxs, j, k).(int64)) : (skey(rows, sortIdxs, i, k).(int64) < skey(rows, sortIdxs, j, k).(int64)))
+//@   ensures[equal; C05] (forall s int :: 0 <= s && s < len(sortIdxs) ==> skey(rows, sortIdxs, i, s) == skey(rows, sortIdxs, j, s)) ==> !result
+//@   loop 1 invariant forall s int :: 0 <= s && s <= rangeindex ==> skey(rows, sortIdxs, i, s) == skey(rows, sortIdxs, j, s)
+
+//@ spec func skey(rows []*storage.Row, sortIdxs []int, i int, s int) any { rows[i].Vals[sortIdxs[s]] }
 
 //@ func sortColumns(ssl []sql.SortSpecification, qfields storage.Fields, rows []*storage.Row) error
 //@   props C05 C18
